@@ -187,6 +187,11 @@ func runC17(c *core.Ctx) {
 		w.Goit("status")
 		steps := c.Pick(30, 36)
 		explicit := []string{".goit", ".goit/HEAD", ".goit/index", "./.goit/config", ".goit/objects", "build", "build/o1", "out", "node_modules", "tmp d", "a.ext", "a.log", "dir", "src/gen", "src", "src/gen/g.go"}
+		if w.Hist%4 == 3 {
+			// a file inside the metadata directory whose NAME holds a line feed (a pattern's "." does not match one by default)
+			w.Write(".goit/x\ny", []byte("not for staging\n"))
+			explicit = append(explicit, ".goit/x\ny", ".goit/x\ny", ".goit/x\ny")
+		}
 		for i := 0; i < steps; i++ {
 			if k.chance(18) {
 				a := explicit[k.R.IntN(len(explicit))]
